@@ -17,6 +17,7 @@ tvars == <<vars, t, l, bad, fin>>
 Ev == Traces[t].ops[l]
 Named(e) ==
   CASE e.op = "Alloc" -> Alloc
+    [] e.op = "AllocN" -> AllocN(e.k)
     [] e.op = "Put" -> Put(e.n, e.g, e.v)
     [] e.op = "OpenStream" -> OpenStream(e.n, e.g, e.v, e.lg)
     [] e.op = "OpenWhileOpen" -> OpenWhileOpen
